@@ -1012,11 +1012,14 @@ package queue
 //@   modifies txPending
 //@   ensures txPending >= old(txPending) && (err == nil ==> txPending >= old(txPending) + 1)
 //@ func (*SQLiteStore).lookupLeasesTx
-//@   trusted
-//@   requires txOpen
+//@   requires txOpen && conn != nil
 //@   modifies leaseLookups
 //@   sets leaseLookups := old(leaseLookups) + 1
+//@   loop 1 invariant [one_parameter_per_lease_id] rangeindex < len(leaseIDs) && len(args) == rangeindex + 1 && forall j int :: 0 <= j && j < len(args) ==> args[j] == leaseIDs[j]
+//@   calls database/sql.(*Conn).QueryContext requires [C04:the_batch_lookup_selects_exactly_the_rows_holding_the_named_leases] txOpen && arg2 == "\nSELECT lease_id, id, state, lease_until\nFROM queue_items\nWHERE lease_id IN (" + ext("strings.TrimRight", ext("strings.Repeat", "?,", len(leaseIDs)), ",") + ");\n" && len(arg3) == len(leaseIDs) && forall j int :: 0 <= j && j < len(leaseIDs) ==> arg3[j] == leaseIDs[j]
+//@   loop 2 invariant [C04:a_lease_is_reported_expired_only_by_its_own_deadline] out != nil && forall k string :: k in out ==> (out[k].expired ==> now >= out[k].leaseUntil) && (!out[k].expired ==> out[k].leaseUntil == 0 || now < out[k].leaseUntil)
 //@   ensures result1 == nil ==> result0 != nil
+//@   ensures [C04:a_lease_is_reported_expired_only_by_its_own_deadline] result1 == nil ==> forall k string :: k in result0 ==> (result0[k].expired ==> now >= result0[k].leaseUntil) && (!result0[k].expired ==> result0[k].leaseUntil == 0 || now < result0[k].leaseUntil)
 //@ func (*SQLiteStore).requeueLeaseIDsTx
 //@   requires s != nil && conn != nil && txOpen
 //@   modifies durable, txOpen, txPending
